@@ -117,8 +117,31 @@ Definition obs_of (c : cresult) : word :=
   [b2z (r_nil c); r_code c] ++ put_bytes (r_msg c) ++ [Z.of_nat (List.length (r_details c))] ++
   put_details (r_details c).
 
+(* op [2; g; n; code]: stress.  g goroutines each perform n RPCs (alternately unary and
+   server-streaming trailers-only) on one connection; every handler returns the status
+   (code, "stress", no details).  The observation is the number of RPCs whose client-side
+   result differs from that status.  Each RPC is the same function [wire], so the model's
+   count is all-or-nothing; concurrency on one HTTP/2 connection is not modelled (the
+   property has no schedule-dependent sentence: every RPC must see its handler's status). *)
+Definition stress_msg : bstr := Eval vm_compute in s2l "stress".
+Definition decode_stress (w : word) : option (Z * Z * Z) :=
+  match w with
+  | [2; g; n; code] =>
+    if (g <? 0) || (n <? 0) || (code <? 1) || (code >? max_u32) then None else Some (g, n, code)
+  | _ => None
+  end.
+Definition stress_bad (g n code : Z) : Z :=
+  let s := mkst code stress_msg [] in
+  if word_eqb (obs_of (wire s)) (obs_of (expected s)) then 0 else g * n.
+
 Definition run_op (w : word) : option word :=
-  match decode_op w with Some s => Some (obs_of (wire s)) | None => None end.
+  match decode_op w with
+  | Some s => Some (obs_of (wire s))
+  | None => match decode_stress w with
+            | Some (g, n, code) => Some [stress_bad g n code]
+            | None => None
+            end
+  end.
 Fixpoint run (ops : list word) : option (list word) :=
   match ops with
   | [] => Some []
@@ -135,10 +158,15 @@ Fixpoint run (ops : list word) : option (list word) :=
    98 clause 1 for a status with details whose message or a type_url is not valid UTF-8
       (known finding)
    2  a non-OK status never becomes a nil error, a nil handler error stays nil
+   4  stress: every one of g*n concurrent RPCs returned its handler's (non-OK) status
    0  malformed case *)
 Definition clause_op (i : Z) (w obs : word) : list (Z * Z * bool) :=
   match decode_op w with
-  | None => [(0, i, false)]
+  | None => match decode_stress w with
+            | Some (g, n, code) =>
+              [(if code >? max_i32 then 97 else 4, i, match obs with [bad] => bad =? 0 | _ => false end)]
+            | None => [(0, i, false)]
+            end
   | Some s =>
     [(2, i, match obs with isnil :: _ => isnil =? b2z (h_code s =? 0) | [] => false end);
      (if h_code s >? max_i32 then 97
